@@ -54,7 +54,7 @@ type c17Plug struct {
 func c17ValidConfig(p c17Plug) map[string]interface{} {
 	switch p.Name {
 	case "custom-auth":
-		return map[string]interface{}{"apiKey": []string{"key-one", "other-key-2", "  "}[p.Variant%3]}
+		return map[string]interface{}{"apiKey": []string{"key-one", "other-key-2", "  ", "top$ecret-7f3a", "${HELIOS_VERIF_UNSET}"}[p.Variant%5]}
 	case "size_limit":
 		return map[string]interface{}{"max_request_body": []int{10, 1000}[p.Variant%2], "max_response_body": 1 << 20}
 	case "gzip":
@@ -154,7 +154,7 @@ func c17Order(e *vh.Env, c c17Case, be *vh.Backend, o *vh.Out) {
 	}
 	defer sys.Close()
 	// requests: API keys {none, wrong (other length), wrong (same length), prefix, variant keys} x body sizes {0, 10, 11, 500, 2000}
-	keys := []string{"", "nope", "key-onX", "key-on", "key-one", "other-key-2", "other-key-X", "key-one1", "other-key-2-and-more", "KEY-ONE", " ", "  "}
+	keys := []string{"", "nope", "key-onX", "key-on", "key-one", "other-key-2", "other-key-X", "key-one1", "other-key-2-and-more", "KEY-ONE", " ", "  ", "top-7f3a", "top$ecret-7f3a", "${HELIOS_VERIF_UNSET}"}
 	for _, key := range keys {
 		for _, blen := range []int{0, 10, 11, 1000, 1001} {
 			// where does the first rejection happen?
@@ -346,7 +346,9 @@ func init() {
 			}
 			rec(nil)
 			// a configured key of blanks only is a key like any other: a request without a key does not match it
-			for _, ch := range [][]c17Plug{{{"custom-auth", 2}}, {{"logging", 0}, {"custom-auth", 2}}, {{"custom-auth", 2}, {"size_limit", 0}}, {{"size_limit", 0}, {"custom-auth", 2}, {"headers", 0}}, {{"custom-auth", 0}, {"custom-auth", 2}}} {
+			for _, ch := range [][]c17Plug{{{"custom-auth", 2}}, {{"logging", 0}, {"custom-auth", 2}}, {{"custom-auth", 2}, {"size_limit", 0}}, {{"size_limit", 0}, {"custom-auth", 2}, {"headers", 0}}, {{"custom-auth", 0}, {"custom-auth", 2}},
+				// keys that look like shell or environment syntax are keys like any other
+				{{"custom-auth", 3}}, {{"logging", 0}, {"custom-auth", 3}, {"headers", 0}}, {{"custom-auth", 4}}, {{"size_limit", 1}, {"custom-auth", 4}}} {
 				cs = append(cs, c17Case{Kind: "order", Chain: ch})
 			}
 			// invalid entries at every position of valid chains
@@ -373,7 +375,7 @@ func init() {
 				defer be.Close()
 				c17Order(e, c, be, o)
 				if len(c.Chain) == 3 && c.Chain[0].Name == "size_limit" && c.Chain[1].Name == "logging" && c.Chain[2].Name == "custom-auth" {
-					o.Sample(map[string]any{"part": "chains", "case": c, "probes": "a tracing probe sits in every gap: p0 size_limit p1 logging p2 custom-auth p3", "requests": "12 API-key variants (none, wrong, prefix of the key, key plus a suffix, other case, blanks only, the key) x 5 body sizes"})
+					o.Sample(map[string]any{"part": "chains", "case": c, "probes": "a tracing probe sits in every gap: p0 size_limit p1 logging p2 custom-auth p3", "requests": "15 API-key variants (none, wrong, prefix of the key, key plus a suffix, other case, blanks only, keys with $ and ${...} in them, the key) x 5 body sizes"})
 				}
 				return
 			}
